@@ -764,6 +764,14 @@ def F41():
     again = PSBT.parse(BytesIO(c), network="testnet").serialize()
     return len(built.hd_pubs) != 2 or again != c, "2 cosigners: %d global xpubs after built.combine(parsed); combined PSBT re-serialises to itself: %s" % (len(built.hd_pubs), again == c)
 
+def F42():
+    """BIP158 filter with two equal values (zero delta): parse -> serialize / hash"""
+    from buidl.compactfilter import CompactFilter, serialize_gcs
+    from buidl.helper import hash256
+    data = serialize_gcs([5, 5, 900000])
+    cf = CompactFilter.parse(bytes(range(16)), data)
+    return cf.serialize() != data or cf.hash() != hash256(data), "filter %s parses and serialises to %s; hash() is the filter hash: %s" % (data.hex(), cf.serialize().hex(), cf.hash() == hash256(data))
+
 def K1():
     from buidl.op import op_2rot
     st = [b"1", b"2", b"3", b"4", b"5", b"6"]
